@@ -124,6 +124,20 @@ var perturbations = []perturb{
 		c.FrozenSth = signedFrozen(w.keyFor(c.Prefix), 12, 946684800123)
 		c.PublicKey = nil
 	}},
+	// the signature field is one TLS DigitallySigned, nothing before and nothing after it
+	{"frozen.signature-trailing", "reject", func(w *CfgWorld, m *configpb.LogMultiConfig, i int) {
+		c := m.LogConfigs.Config[i]
+		if c.PublicKey == nil {
+			_, c.PublicKey = LogKey(w.keyFor(c.Prefix))
+		}
+		c.FrozenSth = signedFrozen(w.keyFor(c.Prefix), 12, 946684800123)
+		sig := c.FrozenSth.TreeHeadSignature
+		if i%2 == 0 {
+			c.FrozenSth.TreeHeadSignature = append(append([]byte{}, sig...), 0)
+		} else {
+			c.FrozenSth.TreeHeadSignature = append(append([]byte{}, sig...), sig...)
+		}
+	}},
 	{"frozen.tampered", "reject", func(w *CfgWorld, m *configpb.LogMultiConfig, i int) {
 		c := m.LogConfigs.Config[i]
 		if c.PublicKey == nil {
